@@ -10,7 +10,7 @@ class NotInSubset(Exception):
     pass
 
 
-_TOK = re.compile(r'\s*(?:(0[xX][0-9a-fA-F]+[uUlL]*|\d+[uUlL]*)|([A-Za-z_]\w*)|(->|\+=|-=|\*=|/=|%=|\^=|&=|\|=|<<=|>>=|<<|>>|<=|>=|==|!=|&&|\|\||[-+*/%&|^~!<>=(){};,?:.\[\]]))')
+_TOK = re.compile(r'\s*(?:(0[xX][0-9a-fA-F]+[uUlL]*|\d+[uUlL]*)|([A-Za-z_]\w*)|(->|\+\+|--|\+=|-=|\*=|/=|%=|\^=|&=|\|=|<<=|>>=|<<|>>|<=|>=|==|!=|&&|\|\||[-+*/%&|^~!<>=(){};,?:.\[\]]))')
 TYPEWORDS = {'void', 'char', 'short', 'int', 'long', 'unsigned', 'signed', 'static', 'const', 'float', 'double', '_Bool'}
 
 
@@ -36,6 +36,8 @@ def tokenize(text):
 
 
 class Parser:
+    typed_builtins = ('__builtin_reg_class',)
+
     def __init__(self, toks, typenames=()):
         self.t = toks; self.i = 0; self.typenames = set(typenames) | TYPEWORDS
 
@@ -107,7 +109,15 @@ class Parser:
         if tok == ('p', ';'):
             self.eat()
             return ('block', [])
-        if tok[0] == 'id' and tok[1] in ('for', 'do', 'switch', 'goto'):
+        if tok == ('id', 'for'):
+            self.eat(); self.eat('(')
+            init = self.stmt() if self.peek() != ('p', ';') else (self.eat() and ('block', []))
+            cond = self.expr() if self.peek() != ('p', ';') else ('num', 1)
+            self.eat(';')
+            inc = self.expr() if self.peek() != ('p', ')') else None
+            self.eat(')')
+            return ('for', init, cond, inc, self.stmt())
+        if tok[0] == 'id' and tok[1] in ('do', 'switch', 'goto'):
             raise NotInSubset('statement %s' % tok[1])
         if self.is_type():
             self.skip_type()
@@ -160,6 +170,20 @@ class Parser:
         if tok[0] == 'p' and tok[1] in ('-', '~', '!', '+'):
             self.eat()
             return ('un', tok[1], self.unary())
+        if tok[0] == 'id' and tok[1] in ('sizeof', '_Alignof') and self.peek(1) == ('p', '('):
+            self.eat(); self.eat('(')
+            depth = 1; words = []
+            while depth:
+                t = self.eat()
+                if t[0] == 'eof':
+                    raise NotInSubset('unbalanced sizeof')
+                if t == ('p', '('):
+                    depth += 1
+                elif t == ('p', ')'):
+                    depth -= 1
+                if depth:
+                    words.append(str(t[1]))
+            return ('typeop', tok[1], ' '.join(words))
         if tok == ('p', '*'):
             self.eat()
             return ('deref', self.unary())
@@ -185,6 +209,26 @@ class Parser:
             if tok == ('p', '->'):
                 self.eat(); f = self.eat()
                 e = ('arrow', e, f[1])
+            elif tok == ('p', '[') :
+                self.eat(); ix = self.expr(); self.eat(']')
+                e = ('index', e, ix)
+            elif tok[0] == 'p' and tok[1] in ('++', '--'):
+                self.eat()
+                e = ('assign', '+=' if tok[1] == '++' else '-=', e, ('num', 1), 'post')
+            elif tok == ('p', '(') and e[0] == 'var' and e[1] in self.typed_builtins:
+                self.eat()
+                depth = 1; words = []
+                while depth:
+                    t = self.eat()
+                    if t[0] == 'eof':
+                        raise NotInSubset('unbalanced call')
+                    if t == ('p', '('):
+                        depth += 1
+                    elif t == ('p', ')'):
+                        depth -= 1
+                    if depth:
+                        words.append(str(t[1]))
+                e = ('typeop', e[1], ' '.join(words))
             elif tok == ('p', '('):
                 self.eat()
                 args = []
@@ -251,6 +295,25 @@ class Eval:
         self.builtins = builtins or {}
         self.depth = 0
         self.steps = 0
+        self.mem = {}            # flat byte memory for integer addresses
+        self.lvalues = False     # True: `*p` of an address / object yields ('lvalue', p) instead of a value
+
+    def load_byte(self, b, i):
+        if isinstance(b, Cell):
+            return getattr(b, 'bytes', {}).get(i, 0)
+        if isinstance(b, int):
+            return self.mem.get(b + i, 0)
+        raise NotInSubset('subscript of a non-pointer')
+
+    def store_byte(self, b, i, v):
+        if isinstance(b, Cell):
+            if not hasattr(b, 'bytes'):
+                b.bytes = {}
+            b.bytes[i] = v & 0xff
+        elif isinstance(b, int):
+            self.mem[b + i] = v & 0xff
+        else:
+            raise NotInSubset('store through a non-pointer')
 
     def call(self, name, args):
         if name not in self.fns:
@@ -284,6 +347,16 @@ class Eval:
             raise _Return(self.ev(s[1], env))
         elif k == 'decl':
             env[s[1]] = Cell(self.ev(s[2], env) if s[2] is not None else 0, s[1])
+        elif k == 'for':
+            inner = env
+            self.exec(s[1], inner)
+            while self.ev(s[2], inner):
+                self.steps += 1
+                if self.steps > 2000:
+                    raise NotInSubset('loop does not terminate within 2000 iterations')
+                self.exec(s[4], inner)
+                if s[3] is not None:
+                    self.ev(s[3], inner)
         elif k == 'while':
             while self.ev(s[1], env):
                 self.steps += 1
@@ -307,7 +380,11 @@ class Eval:
         if k == 'deref':
             p_ = self.ev(e[1], env)
             if not isinstance(p_, Cell):
+                if isinstance(p_, int) and self.lvalues:
+                    return ('lvalue', p_)
                 raise NotInSubset('dereference of a non-pointer')
+            if self.lvalues:
+                return ('lvalue', p_)
             return p_.get()
         if k == 'addr':
             t = e[1]
@@ -316,6 +393,13 @@ class Eval:
             if t[0] == 'deref':
                 return self.ev(t[1], env)
             raise NotInSubset('address of this expression')
+        if k == 'typeop':
+            if e[1] not in self.builtins:
+                raise NotInSubset('%s(%s)' % (e[1], e[2]))
+            return self.builtins[e[1]](e[2])
+        if k == 'index':
+            b = self.ev(e[1], env); i = self.ev(e[2], env)
+            return self.load_byte(b, i)
         if k == 'stmtexpr':
             inner = dict(env)
             last = None
@@ -357,11 +441,18 @@ class Eval:
             if e[1] in self.builtins:
                 return self.builtins[e[1]](*[self.ev(a, env) for a in e[2]])
             return self.call(e[1], [self.ev(a, env) for a in e[2]])
+        if k == 'assign' and len(e) == 5:
+            old_ = self.ev(e[2], env)
+            self.ev(e[:4], env)
+            return old_
         if k == 'assign':
             op, lhs, rhs = e[1], e[2], e[3]
             v = self.ev(rhs, env)
             if op != '=' and not (lhs[0] == 'deref' and hasattr(self.ev(lhs[1], env), 'rmw')):
                 v = self.ev(('bin', op[:-1], lhs, ('num', v)), env)
+            if lhs[0] == 'index':
+                self.store_byte(self.ev(lhs[1], env), self.ev(lhs[2], env), v)
+                return v
             if lhs[0] == 'deref':
                 p_ = self.ev(lhs[1], env)
                 if not isinstance(p_, Cell):
